@@ -575,6 +575,16 @@ def extract_flags():
                 if any(isinstance(x, ast.Attribute) and x.attr == "_highest_inbound_acked" for x in tg):
                     assigners.append(name)
     flags["stop_using_connection_keeps_watermark"] = sorted(assigners) == ["__attrs_post_init__", "update_ack_watermark"]
+    # C13: the per-name backlog of OPENs waiting for a later listen() is unbounded — `defaultdict(deque)`, no
+    # `maxlen`, no factory lambda (a bounded deque silently evicts the oldest pending OPEN)
+    t = ast.parse(textwrap.dedent(inspect.getsource(dsub.SubchannelDemultiplex.__init__)))
+    vals = [n.value for n in ast.walk(t) if isinstance(n, ast.Assign)
+            and any(isinstance(x, ast.Attribute) and x.attr == "_pending_opens" for x in n.targets)]
+    flags["pending_opens_unbounded"] = (
+        len(vals) == 1 and isinstance(vals[0], ast.Call) and _call_name(vals[0]) == "defaultdict"
+        and len(vals[0].args) == 1 and not vals[0].keywords
+        and isinstance(vals[0].args[0], ast.Name) and vals[0].args[0].id == "deque"
+        and "maxlen" not in inspect.getsource(dsub.SubchannelDemultiplex))
     # C10: records parked on a not-yet-selected connection (`_inbound_record_queue`) are appended at the back by
     # queue_inbound_record and handed to Manager.got_record from the FRONT by process_inbound_queue
     from wormhole._dilation import connection as dconn_
